@@ -350,7 +350,7 @@ func errDiscipline(fn *ssa.Function, call *ssa.Call, ev ssa.Value) (string, stri
 
 func ruleC08Commit(c *Ctx) {
 	const rule = "C08-COMMIT"
-	c.Doc(rule, "createDisk: createNewHead ok -> linkDisk ok -> snapshot meta ok -> volume.meta ok -> (done=true, r.info=info); the deferred cleanup removes the old head only under done and the new head/snapshot only under !done.  RemoveDiffDisk: removeDiskNode ok before rmDisk; removeDiskNode: child re-parented on disk (updateParentDisk) before the parent's revision is updated, before the in-memory delete and RemoveIndex.  revertDisk: see C06-SNAPSTEP")
+	c.Doc(rule, "createDisk: createNewHead ok -> linkDisk ok -> snapshot meta ok -> volume.meta ok -> (done=true, r.info=info); the deferred cleanup removes the old head only under done and the new head/snapshot only under !done.  RemoveDiffDisk: removeDiskNode ok before rmDisk; ReplaceDisk: hardlinkDisk ok before removeDiskNode ok before rmDisk (the merged file carries the target's name before the chain forgets the source); removeDiskNode: child re-parented on disk (updateParentDisk) before the parent's revision is updated, before the in-memory delete and RemoveIndex.  revertDisk: see C06-SNAPSTEP")
 	fn := c.Anchor(rule, fRep+"createDisk")
 	if fn != nil {
 		R := NewRenderer(fn)
@@ -498,6 +498,12 @@ func ruleC08Commit(c *Ctx) {
 	if fn := c.Anchor(rule, fRep+"RemoveDiffDisk"); fn != nil {
 		c.Guard(rule, fn, CallsTo(fn, fRep+"rmDisk"), "unlink files", nil, okcall(fRep+"removeDiskNode"))
 	}
+	if fn := c.Anchor(rule, fRep+"ReplaceDisk"); fn != nil {
+		// the merged data is in place under the target's name before the chain forgets the source,
+		// and the source's files go only after the chain forgot it
+		c.Guard(rule, fn, CallsTo(fn, fRep+"removeDiskNode"), "take the source out of the chain", nil, okcall(fRep+"hardlinkDisk"))
+		c.Guard(rule, fn, CallsTo(fn, fRep+"rmDisk"), "unlink the source's files", nil, okcall(fRep+"removeDiskNode"))
+	}
 	if fn := c.Anchor(rule, fRep+"removeDiskNode"); fn != nil {
 		R := NewRenderer(fn)
 		upd := CallsTo(fn, fRep+"updateParentDisk")
@@ -521,7 +527,7 @@ func ruleC08Commit(c *Ctx) {
 	if fn := c.Anchor(rule, fRep+"updateParentDisk"); fn != nil {
 		c.Guard(rule, fn, successReturns(fn), "return success", nil, called(fRep+"encodeToFile"))
 	}
-	c.Floor(rule, 14)
+	c.Floor(rule, 16)
 }
 
 // ---------------------------------------------------------------------------
